@@ -74,3 +74,18 @@ Example join_example :
   = Ok [u "<http://e/c/1> <http://e/p> <http://e/p/10>"; u "<http://e/c/1> <http://e/p> <http://e/p/11>"].
 Proof. vm_compute. reflexivity. Qed.
 Print Assumptions join_example.
+
+(* the whole document: with referencing object maps, what the engine materialises is what the generation rules prescribe
+   (stated and explained in Props/C01.v; repeated here because it is the document-level form of this property) *)
+From Morph Require Import Model.Fragment Proofs.DocEngineP Proofs.DocJoinP.
+Theorem document_with_joins_is_generation_rules_document : forall cfg fe scfg raw,
+  cfg_agree cfg scfg -> c_nquads cfg = s_nquads scfg -> s_na scfg = c_na cfg ->
+  forall d0 rules l,
+    forallb jplain_tm d0 = true -> nodupb (map t_id d0) = true -> parents_ok d0 = true -> normalise d0 = Ok rules -> nodupb (map r_id rules) = true ->
+    (forall rl, In rl rules -> simple_rule rl \/ join_rule_ok rules rl) ->
+    (forall rl rw n, In rl rules -> In rw (raw (r_src rl)) -> In n (rule_names rl ++ child_names rl ++ joins_child (r_ojoin rl)) -> assoc n rw <> None) ->
+    (forall src rw k, In rw (raw src) -> assoc (parent_prefix ++ k) rw = None) ->
+    materialize_rules cfg fe rules (delivered cfg raw) = Ok l ->
+    forall x, In x l <-> In x (spec_lines scfg fe d0 (spec_tables raw)).
+Proof. exact engine_document_is_spec_document_joins. Qed.
+Print Assumptions document_with_joins_is_generation_rules_document.
